@@ -18,8 +18,14 @@ for d in sorted(glob.glob(os.path.join(ROOT, "seeded", "*", "meta.json"))):
             if mm:
                 first.append("%s: %s / %s" % (k, mm.group(1), mm.group(3).rstrip(":")))
     short = notes[:170].rsplit(" ", 1)[0]
+    h = m.get("history", "")
+    if isinstance(h, list):
+        own = m.get("property")
+        missed = bool(h) and own not in (h[0].get("caught_by") or [])
+    else:
+        missed = h.startswith("First run: M") or "harness error" in h
     rows.append("| %s | %s | %s | %s%s |" % (name, short.replace("|", "/"), ", ".join(m["caught_by"]) or "-",
-                                            "; ".join(first), " (missed at first, see below)" if m.get("history", "").startswith("First run: M") or "harness error" in m.get("history", "") else ""))
+                                            "; ".join(first), " (missed at first, see below)" if missed else ""))
 print("| seed | what was changed (author's note, abridged) | caught by | first report (check: clause / kind) |")
 print("|---|---|---|---|")
 print("\n".join(rows))
